@@ -33,6 +33,11 @@ def make_app(conf):
     return MapProxyApp(pc.configured_services(), pc.base_config), pc
 
 
+def make_conf(conf):
+    from mapproxy.config.loader import ProxyConfiguration
+    return ProxyConfiguration(conf, conf_base_dir='/simfs/conf')
+
+
 def wsgi_get(app, path, query='', headers=None):
     environ = {
         'REQUEST_METHOD': 'GET', 'SCRIPT_NAME': '', 'PATH_INFO': path, 'QUERY_STRING': query,
